@@ -377,3 +377,48 @@ func (c *Ctx) ruleReconnectResumes(rr *RuleRep) {
 }
 
 var _ = token.ADD
+
+// loopCtxCell: the variable holding the loop's context — the one DialContext is called with: its cell when the variable is
+// captured/reassigned, and the value it is initialised with (the goroutine's parameter, or a copy of the caller's context).
+func (c *Ctx) loopCtxCell(m *reconnModel) (*ssa.Alloc, ssa.Value) {
+	if m.Dial == nil {
+		return nil, nil
+	}
+	var arg ssa.Value
+	for _, a := range m.Dial.Call.Args {
+		if types.TypeString(a.Type(), nil) == "context.Context" {
+			arg = a
+		}
+	}
+	if arg == nil {
+		return nil, nil
+	}
+	if u, ok := arg.(*ssa.UnOp); ok && u.Op == token.MUL {
+		if cell, ok := c.addrRoot(u.X).(*ssa.Alloc); ok {
+			return cell, nil
+		}
+	}
+	return nil, c.Resolve(arg)
+}
+
+// isLoopCtx: v denotes the loop's context at some point of the loop.
+func (c *Ctx) isLoopCtx(m *reconnModel, v ssa.Value) bool {
+	cell, val := c.loopCtxCell(m)
+	if cell != nil {
+		if u, ok := v.(*ssa.UnOp); ok && u.Op == token.MUL {
+			if c2, ok := c.addrRoot(u.X).(*ssa.Alloc); ok && c2 == cell {
+				return true
+			}
+		}
+		// a value the cell is initialised with
+		for _, st := range c.cellStores[cell] {
+			if st.Val == v || c.Resolve(st.Val) == c.Resolve(v) {
+				if call, _ := c.asCall(st.Val); call == nil {
+					return true
+				}
+			}
+		}
+		return false
+	}
+	return val != nil && c.Resolve(v) == val
+}
